@@ -158,10 +158,17 @@ def _multi_file(rng, kind):
     else:
         v, files = _files_sharing_goal(rng, n)
         goals = [f"E({v})"] + ([f"E({v}**2)"] if rng.random() < 0.3 and all(f"{v}**2" in c[f]["goals"] for f in files) else [])
-        if rng.random() < 0.15:
-            goals.append(f"c2({v})")
+        if all(f"{v}**2" in c[f]["goals"] for f in files):
+            # goal kinds that need different numbers of raw moments of the same monomial, in random order
+            pool = [f"c2({v})", f"k2({v})", f"k3({v})", f"c3({v})", f"P({v}>=5)<=?", f"P({v}>1)>=?"]
+            for g in rng.sample(pool, rng.choice([0, 0, 1, 2, 2, 3])):
+                goals.append(g)
+        rng.shuffle(goals)
         ns = {"goals": goals}
         argv = ["--goals"] + goals
+        if rng.random() < 0.3:
+            ns["tail_bound_moments"] = 3
+            argv += ["--tail_bound_moments", "3"]
     fl = [{"path": p} for p in files]
     if kind == "cli":
         return {"kind": "cli", "pid": "cli:" + "+".join(files), "files": fl, "argv": argv, "options": {}}
@@ -279,12 +286,57 @@ def reference_units(sess):
         if sess.get("invariants"):
             units["invariants"] = dict(base, goals=sorted(sess["goals"], key=lambda g: json.dumps(g, sort_keys=True)), invariants=True)
     elif k == "action":
+        gl = sess["namespace"].get("goals") or []
         for i, f in enumerate(sess["files"]):
-            units[f"file:{i}"] = {"kind": "action", "files": [f], "namespace": sess["namespace"], "options": sess.get("options", {})}
+            if len(gl) > 1 and not sess["namespace"].get("invariants"):
+                # goal order must not matter: every goal is also analysed alone
+                units[f"file:{i}"] = [{"kind": "action", "files": [f], "namespace": dict(sess["namespace"], goals=[g]), "options": sess.get("options", {})}
+                                      for g in gl]
+            else:
+                units[f"file:{i}"] = {"kind": "action", "files": [f], "namespace": sess["namespace"], "options": sess.get("options", {})}
     elif k == "cli":
+        argv = list(sess["argv"])
+        gl = argv[argv.index("--goals") + 1:] if "--goals" in argv else []
+        gl = gl[: next((j for j, a in enumerate(gl) if a.startswith("--")), len(gl))]
+        rest = [a for a in argv if a not in gl and a != "--goals"]
         for i, f in enumerate(sess["files"]):
-            units[f"file:{i}"] = {"kind": "cli", "files": [f], "argv": sess["argv"], "options": sess.get("options", {})}
+            if len(gl) > 1 and "--invariants" not in argv:
+                units[f"file:{i}"] = [{"kind": "cli", "files": [f], "argv": ["--goals", g] + rest, "options": sess.get("options", {})} for g in gl]
+            else:
+                units[f"file:{i}"] = {"kind": "cli", "files": [f], "argv": sess["argv"], "options": sess.get("options", {})}
     return units
+
+
+def merged_file_reference(unit_or_list, refget, step_name):
+    """reference result for one file: a single unit, or the per-goal units merged into one file result"""
+    if not isinstance(unit_or_list, list):
+        r = refget(unit_or_list)
+        if r.get("status") != "done":
+            return None
+        st = r["steps"].get(step_name)
+        if step_name == "main":
+            if not st or st.get("status") != "ok":
+                return None
+            return st["data"]["per_file"][0]
+        return st
+    merged = {"status": "ok", "data": {"goals": {}, "invariants": None}}
+    for u in unit_or_list:
+        r = refget(u)
+        if r.get("status") != "done":
+            return None
+        st = r["steps"].get(step_name)
+        if step_name == "main":
+            if not st or st.get("status") != "ok":
+                return None
+            st = st["data"]["per_file"][0]
+        if st is None or st["status"] in ("timeout", "skipped"):
+            return {"status": "timeout"}
+        if st["status"] != "ok":
+            # the file's run stops at the first goal that raises: later goals are not reached
+            merged["first_refusal"] = {"status": st["status"], "etype": st.get("etype")}
+            break
+        merged["data"]["goals"].update(st["data"]["goals"])
+    return merged
 
 
 class RefClient:
@@ -371,7 +423,15 @@ def _cmp_status(w, r):
 
 
 def _cmp_file(w, r):
-    """per-file result of an action / cli session against the single-file run"""
+    """per-file result of an action / cli session against the single-file (and single-goal) runs"""
+    if r.get("first_refusal"):
+        # alone, one of the goals is refused: the run over all goals must be refused in the same way
+        fr = r["first_refusal"]
+        if w["status"] in ("timeout", "skipped"):
+            return "inconclusive", None
+        if w["status"] != fr["status"] or w.get("etype") != fr.get("etype"):
+            return "diff", {"what": "status", "world": w["status"] + ":" + w.get("etype", ""), "alone": fr["status"] + ":" + str(fr.get("etype"))}
+        return "ok", None
     v, d = _cmp_status(w, r)
     if v != "ok" or w["status"] != "ok":
         return v, d
@@ -380,6 +440,19 @@ def _cmp_file(w, r):
         return "diff", {"what": "goal-set", "world": sorted(wg), "alone": sorted(rg)}
     verdict = "ok"
     for g in wg:
+        if "bounds" in wg[g] or "bounds" in rg[g]:
+            wb, rb = wg[g].get("bounds") or [], rg[g].get("bounds") or []
+            if len(wb) != len(rb):
+                return "diff", {"what": "tail-bound-count", "goal": g, "world": len(wb), "alone": len(rb)}
+            for x, y in zip(wb, rb):
+                e = canon.compare_closed_forms(x, y)
+                if e is False:
+                    return "diff", {"what": "tail-bound", "goal": g, "world": x["vals"][0][:6], "alone": y["vals"][0][:6]}
+                if e is None:
+                    verdict = "inconclusive"
+            if wg[g].get("exact") != rg[g].get("exact"):
+                return "diff", {"what": "is_exact", "goal": g, "world": wg[g].get("exact"), "alone": rg[g].get("exact")}
+            continue
         e = canon.compare_closed_forms(wg[g]["cf"], rg[g]["cf"])
         if e is False:
             return "diff", {"what": "closed-form", "goal": g, "world": wg[g]["cf"]["vals"][0][:6], "alone": rg[g]["cf"]["vals"][0][:6]}
@@ -447,12 +520,12 @@ def judge(history, wres, refget):
         elif sess["kind"] == "action":
             if step == "create":
                 continue
-            r = refget(units[step])
+            rs = merged_file_reference(units[step], refget, "file:0")
             stats["units"] += 1
-            if r.get("status") != "done" or "file:0" not in r["steps"]:
+            if rs is None:
                 verdict = "inconclusive"
             else:
-                verdict, detail = _cmp_file(w, r["steps"]["file:0"])
+                verdict, detail = _cmp_file(w, rs)
         elif sess["kind"] == "cli":
             if w["status"] != "ok":
                 verdict = "inconclusive"
@@ -460,12 +533,11 @@ def judge(history, wres, refget):
                 for fi, pf in enumerate(w["data"]["per_file"]):
                     if pf["status"] == "not_reached":
                         continue
-                    r = refget(units[f"file:{fi}"])
+                    rpf = merged_file_reference(units[f"file:{fi}"], refget, "main")
                     stats["units"] += 1
-                    if r.get("status") != "done" or r["steps"].get("main", {}).get("status") != "ok":
+                    if rpf is None:
                         stats["inconclusive"] += 1
                         continue
-                    rpf = r["steps"]["main"]["data"]["per_file"][0]
                     v2, d2 = _cmp_file(pf, rpf)
                     stats["compared"] += 1
                     if v2 == "diff":
@@ -579,8 +651,21 @@ def vclass(res):
 
 
 def finding_signature(res, case):
-    p = res["problems"][0] if res.get("problems") else {}
-    return {"class": vclass(res)}
+    """a run counts as known finding F9 only if *every* reported difference is a RecursionError on one side of a
+    session whose goal list contains a lower tail bound P(M > a) >= ?"""
+    probs = res.get("problems") or []
+
+    def is_f9(p):
+        if p.get("what") != "status" or "RecursionError" not in (str(p.get("world")) + str(p.get("alone"))):
+            return False
+        try:
+            sess = case["sessions"][p["sid"]]
+        except Exception:  # noqa
+            return False
+        goals = (sess.get("namespace") or {}).get("goals") or sess.get("argv") or []
+        return any(g.startswith("P(") and ">=?" in g.replace(" ", "") and "<=" not in g for g in goals)
+
+    return {"class": vclass(res), "recursion_error_with_lower_tail_bound": bool(probs) and all(is_f9(p) for p in probs)}
 
 
 def describe_violation(res):
